@@ -268,7 +268,8 @@ pub fn disasm_event(v: &Vocab, m: &dr::Module, tag: &str) -> Value {
         Err(p) => json!({"ev": "disasm", "tag": tag, "st": "panic", "panic": jpanic(&p), "m": jm, "lines": [], "tokens": [], "reread": [], "reread_ok": false}),
         Ok(text) => {
             let lines: Vec<&str> = text.split('\n').collect();
-            let nh = if m.header.is_some() { 4 } else { 0 };
+            // the header comment: the leading lines that start with ';'
+            let nh = lines.iter().take_while(|l| l.trim_start().starts_with(';')).count();
             let mut ctx = ReadCtx::default();
             // the vocabulary includes the module's scalar type declarations wherever they stand: first pass
             for l in lines.iter().skip(nh) {
@@ -286,7 +287,7 @@ pub fn disasm_event(v: &Vocab, m: &dr::Module, tag: &str) -> Value {
             for l in lines.iter().skip(nh) {
                 match read_line(v, l, &mut ctx) { Some(i) => reread.push(i.to_json()), None => { ok = false; reread.push(json!({"op": 65535, "rt": [], "rid": [], "ops": []})); } }
             }
-            json!({"ev": "disasm", "tag": tag, "st": "ok", "m": jm, "lines": lines,
+            json!({"ev": "disasm", "tag": tag, "st": "ok", "m": jm, "lines": lines, "nh": nh,
                    "tokens": lines.iter().map(|l| tokenize(l)).collect::<Vec<_>>(), "reread": reread, "reread_ok": ok})
         }
     }
